@@ -26,3 +26,17 @@ package raftio
 //@ ghostset gSaved := result == nil
 //@ ghostset gSavedPtr := ptr(updates)
 //@ ghostset gSavedLen := len(updates)
+
+// ---------------------------------------------------------------- import of an exported snapshot: validation before mutation (C20)
+// gImp*OK are set by the validation steps of tools.ImportSnapshot when they accept;
+// gDataMutated is set by every step that modifies existing replica data (snapshot
+// directories, the log store).
+//@ ghost var gImpSettingsOK bool
+//@ ghost var gImpImageOK bool
+//@ ghost var gImpMembersOK bool
+//@ ghost var gDataMutated bool
+//@ iface (db ILogDB) ImportSnapshot
+//@ ghostset gDataMutated := true
+//@ iface (db ILogDB) Close
+//@ iface (db ILogDB) BinaryFormat
+//@ iface (db ILogDB) Name
